@@ -21,9 +21,9 @@ REGIONS = [
     ("parser.arraybinary", "libscpi/src/parser.c", 1621, 1676, ["C17", "C06"]),
     ("utils.compose", "libscpi/src/utils.c", 678, 712, ["C02", "C01"]),
     ("utils.heap", "libscpi/src/utils.c", 775, 902, ["C20", "C18", "C01"]),
-    ("error", "libscpi/src/error.c", 60, 215, ["C10", "C11", "C12", "C20"]),
+    ("error", "libscpi/src/error.c", 60, 215, ["C10", "C11", "C12", "C20", "C05"]),
     ("fifo", "libscpi/src/fifo.c", 40, 146, ["C10", "C20"]),
-    ("ieee488.regset", "libscpi/src/ieee488.c", 147, 292, ["C11", "C12"]),
+    ("ieee488.regset", "libscpi/src/ieee488.c", 147, 292, ["C11", "C12", "C10"]),
     ("minimal", "libscpi/src/minimal.c", 78, 215, ["C10", "C11", "C12"]),
     ("lexer.string_block", "libscpi/src/lexer.c", 634, 790, ["C08", "C05", "C01"]),
 ]
@@ -76,6 +76,7 @@ def main():
     scale = sys.argv[sys.argv.index("--scale") + 1] if "--scale" in sys.argv else "0.3"
     only = sys.argv[sys.argv.index("--region") + 1] if "--region" in sys.argv else None
     stride = int(sys.argv[sys.argv.index("--stride") + 1]) if "--stride" in sys.argv else 1
+    offset = int(sys.argv[sys.argv.index("--offset") + 1]) if "--offset" in sys.argv else 0
     out_path = os.path.join(VERIF, "build", "mutation_campaign%s.txt" % ("_" + only if only else ""))
     scratch = "/var/tmp/scpi_mutc_%d" % os.getpid()
     subprocess.run(["git", "-C", "/repo", "worktree", "add", "--detach", "-f", scratch, "HEAD"], check=True, stdout=subprocess.DEVNULL, stderr=subprocess.DEVNULL)
@@ -96,7 +97,7 @@ def main():
                     for desc, new in mutants_of_line(lines[ln]):
                         cands.append((ln, desc, new))
                 for k, (ln, desc, new) in enumerate(cands):
-                    if k % stride:
+                    if k % stride != offset:
                         continue
                     if n >= maxn:
                         break
